@@ -46,6 +46,7 @@ FALLBACKS_GENERATED = FALLBACKS + ('???', 'tag_unknown_', 'unknown attribute', '
                                    'unrecognised', 'unrecognized')
 
 
+RANGE_RENDERINGS = ('loos+', 'loproc+', 'louser+')
 OURS_UNKNOWN = ('<unknown>', 'unrecognized:', 'unknown note type', '??? (', '<unknown:')
 
 
@@ -145,7 +146,10 @@ def compare(option, path, image_has=(), runner=ours_forked, probe=None):
     if probe is not None:
         # the oracle's own "I do not know this value" renderings (the flag-key legend of -S is not data)
         low = _without_legend(out.lower())
-        for pat in (FALLBACKS_GENERATED if probe is True else FALLBACKS):
+        pats = FALLBACKS_GENERATED if probe is True else FALLBACKS
+        if isinstance(probe, (list, tuple)) and str(probe[0]).endswith('_range'):
+            pats = tuple(p for p in pats if p not in RANGE_RENDERINGS)      # the probed rendering itself
+        for pat in pats:
             if pat in low:
                 return 'oracle-skip', 'oracle prints its fallback (%s)' % pat
     rc2, out2, err2 = runner(option, path)
